@@ -420,6 +420,17 @@ def run(ctx):
               "R15.5", "iter_timestamped_records:fields", "the loop does not run over the record's datetime fields", loop, "for field in record._desc.getfields('datetime')")
     ys = [y for y in ast.walk(its) if isinstance(y, ast.Yield)]
     in_loop = [y for y in ys if y in list(ast.walk(loop))]
+    # the record is passed through unchanged only when it has no datetime field
+    icfg5 = CFG(its)
+    ial = single_assign_aliases(its)
+    dtf = norm(expand_aliases(loop.iter, ial))
+    for y in [y for y in ys if y not in in_loop]:
+        nd = icfg5.header_node_for_expr(y) or icfg5.node_of(y)
+        prem = [(expand_aliases(e0, ial), p0) for e0, p0 in logic.facts_as_premises(icfg5.facts_at(nd.id))]
+        okp = logic.implies(prem, logic.parse(f"not {dtf}")) or logic.implies(prem, logic.parse(f"len({dtf}) == 0"))
+        ctx.check(okp, "R15.5", "iter_timestamped_records:passthrough-only-without-timestamps",
+                  f"the record is yielded unchanged under {sorted(norm(e0) + ('' if p0 else ' is false') for e0, p0 in prem)}, which does not imply that it has no datetime fields: "
+                  "a record with timestamp fields is then not expanded", y, "unchanged only when there are no datetime fields", key="R15.5:iter_timestamped_records:passthrough-condition")
     ctx.check(len(in_loop) == 1 and not [n for n in ast.walk(loop) if isinstance(n, (ast.Break, ast.Continue, ast.Return))], "R15.5", "iter_timestamped_records:one-per-field",
               "not exactly one record is yielded per datetime field", loop, "one yield per iteration, no early exit")
 
